@@ -221,9 +221,38 @@ func init() {
 			fr.i.sched.yield(fr, always)
 			return nil, true
 		},
+		"vxIdleWait": func(fr *frame, a []value) (value, bool) {
+			// blocks until every other goroutine is blocked (virtual time advances only
+			// then, as in testing/synctest); the main goroutine waiting in vxRunAll counts
+			// as blocked
+			sc := fr.i.sched
+			me := sc.cur
+			me.idleWaiter = true
+			defer func() { me.idleWaiter = false }()
+			sc.yield(fr, func() bool {
+				for _, g := range sc.gs {
+					if g == me || g.done {
+						continue
+					}
+					if g.main && sc.inRunAll {
+						continue
+					}
+					if g.idleWaiter {
+						continue
+					}
+					if g.ready == nil || g.ready() {
+						return false
+					}
+				}
+				return true
+			})
+			return nil, true
+		},
 		"vxRunAll": func(fr *frame, a []value) (value, bool) {
 			// let every other goroutine run until none of them can make progress
 			sc := fr.i.sched
+			sc.inRunAll = true
+			defer func() { sc.inRunAll = false }()
 			for n := 0; ; n++ {
 				others := 0
 				for _, g := range sc.runnable() {
